@@ -194,6 +194,10 @@ type SessionState struct {
 	chapRetryTimer *time.Timer
 	chapRetryCount int
 
+	// linkEnded is set by onLCPDown when LCP leaves Opened on a link that had
+	// been authenticated; handleSession then tears the session down.
+	linkEnded bool
+
 	pendingAuthRequestID string
 	pendingAuthType      string
 	pendingPAPID         uint8
@@ -595,7 +599,18 @@ func (c *Component) handleSession(pkt *dataplane.ParsedPacket) error {
 		return fmt.Errorf("no PPP layer in session packet")
 	}
 
-	return sess.handlePPP(pkt.PPP)
+	err := sess.handlePPP(pkt.PPP)
+
+	// The frame ended an authenticated link (LCP left Opened: renegotiation,
+	// Terminate-Request, Code-Reject ...): end the PPPoE session with it.
+	sess.mu.Lock()
+	ended := sess.linkEnded
+	sess.linkEnded = false
+	sess.mu.Unlock()
+	if ended {
+		c.handleDeadPeer(sid)
+	}
+	return err
 }
 
 func (c *Component) handlePADI(pkt *dataplane.ParsedPacket) error {
